@@ -78,21 +78,38 @@ pub fn main(args: &[String]) -> i32 {
     let mut b = Batch::new();
     let mut trace = 0;
     if which == "keywords" || which == "both" {
-        // 65 700 one-character patterns with their own token types: a very large keyword list whose
-        // automaton and minimiser partition both cross the 2^16 boundary
-        let n = 65_700usize;
+        // A very large keyword list whose automaton, class registry and minimiser partition all cross
+        // the 2^16 boundary: 8 two-character keywords x·L_k (token types 0..7), 65 528 one-character
+        // keywords (types 8..65 535), 8 two-character keywords y·L_k (types 65 536..65 543).
+        // The states "after x" and "after y" start in one partition group and are told apart only
+        // by target groups whose indices differ by exactly 2^16.
+        let nf = 65_528usize;
         let base = 0x10000u32;
-        let ch = |k: usize| char::from_u32(base + k as u32).unwrap();
-        let pats: Vec<RealPat> = (0..n).map(|k| RealPat { pattern: ch(k).to_string(), tt: k, la: None }).collect();
+        let filler = |k: usize| char::from_u32(base + k as u32).unwrap();
+        let letters: Vec<char> = "abcdefgh".chars().collect();
+        let mut pats: Vec<RealPat> = vec![];
+        for (k, l) in letters.iter().enumerate() {
+            pats.push(RealPat { pattern: format!("x{l}"), tt: k, la: None });
+        }
+        for k in 0..nf {
+            pats.push(RealPat { pattern: filler(k).to_string(), tt: 8 + k, la: None });
+        }
+        for (k, l) in letters.iter().enumerate() {
+            pats.push(RealPat { pattern: format!("y{l}"), tt: 65_536 + k, la: None });
+        }
         let modes = vec![RealMode { name: "KEYWORDS".into(), pats, trans: vec![] }];
         let mut idx: Vec<usize> = (0..24).collect();
-        idx.extend(65_536 - 24..65_536 + 24);
-        idx.extend(n - 12..n);
-        idx.extend((0..n).step_by(2999));
-        let text: String = idx.iter().map(|k| ch(*k)).chain("x".chars()).collect();
-        let text2: String = [65_535usize, 65_536, 0, 65_699, 1, 65_537].iter().map(|k| ch(*k)).collect();
+        idx.extend(nf - 40..nf);
+        idx.extend((0..nf).step_by(2999));
+        let text: String = idx.iter().map(|k| filler(*k)).chain("q".chars()).collect();
+        let mut text2 = String::new();
+        for l in &letters {
+            text2.push_str(&format!("x{l} y{l} "));
+        }
+        text2.push_str("x y xx yb");
+        let text3: String = [nf - 1, 0, nf - 2, 1].iter().map(|k| filler(*k)).chain("ya".chars()).collect();
         trace += 1;
-        record_large(&mut b, trace, "65700 one-character patterns, token type = index", &modes, &[text, text2]);
+        record_large(&mut b, trace, "65544 keywords: x·[a-h] (types 0..7), 65528 one-character keywords, y·[a-h] (types 65536..65543)", &modes, &[text, text2, text3]);
     }
     if which == "repeat" || which == "both" {
         let n = 66_000usize;
